@@ -191,6 +191,10 @@ func genC11(g *Gen, tier string, idx int) *wire.Scenario {
 	sc.Env = env
 	if g.P(20) && len(sc.Plan.Faults) == 0 && len(sc.Plan.Disturb) == 0 {
 		warm := []wire.Token{tok("w", "self-insert"), tok("\r", "accept-line")}
+		if seq := g.Cat.ShortSeqFor(km, "accept-and-hold"); seq != "" && km != "vi-command" && g.P(40) {
+			// the earlier call was left with accept-and-hold: this one starts with that line in the buffer
+			warm[1] = tok(seq, "accept-and-hold")
+		}
 		sc.Script = append(warm, sc.Script...)
 		x.Warm = len(warm)
 	}
